@@ -56,7 +56,10 @@ def _sorter(rows, key_calc, reverse, batch_size):
 
     def process(rows):
         for row_num, row in enumerate(rows):
-            key = key_calc(row) + '{:08x}'.format(row_num)
+            # the key is terminated before the row number is appended (NUL NUL, with NUL
+            # inside the key escaped as NUL SOH), so that a key which is a prefix of another
+            # key sorts before it whatever the row numbers are
+            key = key_calc(row).replace('\x00', '\x00\x01') + '\x00\x00' + '{:08x}'.format(row_num)
             yield (key, row)
 
     db.insert(process(rows), batch_size=batch_size)
